@@ -145,7 +145,7 @@ def run_shard(shard: Dict[str, Any]) -> Acc:
         prog = gen_case(rng, cls)
         acc.hist("class", cls)
         flags: Dict[str, Any] = {}
-        common.guarded(acc, check_program, prog, acc, flags)
+        common.guarded(acc, check_program, prog, acc, flags, case={"program": prog})
         acc.case(bp.phash(prog), bool(flags.get("nontrivial")), sample=prog if i < 40 else None)
     return acc
 
